@@ -20,7 +20,7 @@ WRITE_FAMILY = ("write", "write_all", "write_vectored", "write_fmt", "write_all_
 
 
 def run(ctx):
-    configs = ["default"] if ctx.tier == "quick" else ["default", "full", "single:rolling_file_appender,compound_policy,size_trigger"]
+    configs = ["default", "full"] if ctx.tier == "quick" else ["default", "full", "single:rolling_file_appender,compound_policy,size_trigger"]
     for cfg in configs:
         run_cfg(ctx, ctx.prog(cfg), cfg)
 
@@ -151,6 +151,9 @@ def run_cfg(ctx, p, cfg):
     rolling.rule_branch_order(ctx, p, cfg, "Z5")
     if "compound_policy" in p.meta.get("features", []):
         rolling.rule_policy_order(ctx, p, cfg, "Z6")   # exceeding the limit always leads to the rotation
+        if "fixed_window_roller" in p.meta.get("features", []):
+            from rules import c07
+            c07.rule_roll_moves_file(ctx, p, cfg, "Z6b")   # .. and the roller does not report it done while the file is still in place (never deferred)
     rolling.rule_writer_handle(ctx, p, cfg, "Z7")
     if "config_parsing" in p.meta.get("features", []) and "size_trigger" in p.meta.get("features", []):
         # the limit compared against is the number the configuration states: unit table and overflow check of the literal
